@@ -233,6 +233,12 @@ func VerifCheck_limit() {
 	}
 	sref := verifSnap(ref)
 	verifRE.optimizations.MaxBacktrackingStackSize = L
+	if verifParam("boolfirst") != "" {
+		// a bool-only call first: the pooled interpreter state is then sized by the capture-free program
+		if _, err := verifRE.MatchRunes(t); err != nil {
+			verifAssert("only-limit-error/bool", err == ErrBacktrackingStackLimit)
+		}
+	}
 	m, err := verifRE.FindRunesMatch(t)
 	verifAssert("stack<=L", verifTrackCap(verifRE) <= L)
 	okAtL := err == nil
@@ -538,6 +544,17 @@ func VerifCheck_groups() {
 				verifFail("error-replace", err.Error())
 			}
 			verifAssert("replacement-$n==${n}", a == b)
+			// ... and that group is the one Match.Groups reports under this number: the first match's text
+			// replaced by <text of group nums[i]>
+			if m != nil && i < len(m.Groups()) {
+				bi, bl := m.ByteRange()
+				want := s[:bi] + "<" + m.Groups()[i].String() + ">" + s[bi+bl:]
+				first, err := re.Replace(s, "<${"+ns+"}>", -1, 1)
+				if err != nil {
+					verifFail("error-replace", err.Error())
+				}
+				verifAssert("replacement-${n}==Groups[n]", first == want)
+			}
 			if names[i] != "" && names[i] != ns {
 				c, err := re.Replace(s, "<${"+names[i]+"}>", -1, -1)
 				if err != nil {
